@@ -973,12 +973,9 @@ class XsdGroup(XsdComponent, MutableSequence[ModelParticleType],
             # Check element CDATA
             if obj.text and obj.text.strip() or \
                     any(child.tail and child.tail.strip() for child in obj):
-                if len(self) == 1 and isinstance(self[0], XsdAnyElement):
-                    pass  # [XsdAnyElement()] equals to an empty complexType declaration
-                else:
-                    reason = _("character data between child elements not allowed")
-                    context.validation_error(validation, self, reason, obj)
-                    cdata_index = 0  # Do not decode CDATA
+                reason = _("character data between child elements not allowed")
+                context.validation_error(validation, self, reason, obj)
+                cdata_index = 0  # Do not decode CDATA
 
         if cdata_index and obj.text is not None:
             if self.mixed and context.preserve_mixed:
@@ -1201,8 +1198,7 @@ class XsdGroup(XsdComponent, MutableSequence[ModelParticleType],
             reason = _("wrong content type {!r}").format(type(obj.content))
             context.validation_error(validation, self, reason, elem)
 
-        if not self.mixed and text and text.strip() and self and \
-                (len(self) > 1 or not isinstance(self[0], XsdAnyElement)):
+        if not self.mixed and text and text.strip() and self:
             reason = _("character data between child elements not allowed")
             context.validation_error(validation, self, reason, elem)
 
